@@ -83,6 +83,18 @@ def make_points(rng, cls, n):
     return x, y, (R0, t0, s0), exact, scale
 
 
+def call_umeyama(rng, G, x, y, with_scale):
+    """the documented signature umeyama_alignment(x, y, with_scale=False), arguments by position or by name"""
+    u = rng.integers(4)
+    if u == 0:
+        return contracts.outcome_of(G.umeyama_alignment, x, y, with_scale)
+    if u == 1:
+        return contracts.outcome_of(G.umeyama_alignment, x, y, with_scale=with_scale)
+    if u == 2:
+        return contracts.outcome_of(G.umeyama_alignment, x, y=y, with_scale=with_scale)
+    return contracts.outcome_of(G.umeyama_alignment, x=x, y=y, with_scale=with_scale)
+
+
 def k_align(run, case):
     G = geo()
     rng = run.rng(case)
@@ -103,7 +115,7 @@ def k_align(run, case):
     elif lay == 2:
         x, y = np.ascontiguousarray(x.T).T, np.ascontiguousarray(y.T).T
     with contracts.numeric_env(run.rng(case, 31)):
-        out = contracts.outcome_of(G.umeyama_alignment, x, y, with_scale)
+        out = call_umeyama(run.rng(case, 32), G, x, y, with_scale)
     info = contracts.umeyama_oracle(run, case, x, y, with_scale, out, cloud_rng=run.rng(case, 7))
     run.seen(case, core.digest(x, y, with_scale), nontrivial=info is not None,
              cls=["align:" + cls, "with_scale" if with_scale else "rigid",
@@ -208,7 +220,7 @@ def k_degenerate(run, case):
         y = rng.normal(size=(2, n)) * scale
     env = contracts.numeric_env(rng)
     with env:
-        out = contracts.outcome_of(G.umeyama_alignment, x, y, with_scale)
+        out = call_umeyama(rng, G, x, y, with_scale)
     run.seen(case, core.digest(x, y, with_scale), cls=["degenerate:" + cls, "numeric environment: " + env.kind],
              sample={"cls": cls, "outcome": out[0], "x_head": x[:, :3]})
     if cls == "unequal_dim":
